@@ -4,9 +4,12 @@
 * **Errors as trees** mirroring the Go error values the network stack produces (`syscall.Errno`,
   `*os.SyscallError`, `*net.OpError` with its two endpoint addresses, the sentinels `io.EOF`,
   `net.ErrClosed`, `os.ErrClosed`, `os.ErrDeadlineExceeded`, `fmt.Errorf("…: %w", e)` wrappers, opaque
-  `errors.New` values) with the three things the code asks of them: their text (`Error()`), `errors.Is`
+  values) with the three things the code asks of them: their text (`Error()`), `errors.Is`
   against the targets `generalizeErr` tests, and `err.(net.Error)` / `Timeout()`.
   A text is a list of tokens; an address is a token of its own that remembers whose address it is.
+  The text of an *opaque* error (and the prefix a wrapper adds) is a token list as well: nothing in the
+  type of a Go error keeps `errors.New`, `fmt.Errorf("…: %v", opErr)` (the operation error flattened into
+  text) or `*net.AddrError` from naming an address, and the sanitiser cannot look inside them.
 * **Both `generalizeErr` functions** (cmd/application/conns.go and pkg/station/lib/proxies.go) — they
   differ only in what the closed class maps to — including the reduction of unanticipated errors to
   address-free text (`strip`: a `*net.OpError` found in the chain is rebuilt without its endpoints).
@@ -66,9 +69,10 @@ inductive Err
   | netClosed                                                    -- net.ErrClosed
   | osClosed                                                     -- os.ErrClosed
   | deadline                                                     -- os.ErrDeadlineExceeded
-  | wrapped (txt : String) (inner : Err)                         -- fmt.Errorf(txt + ": %w", inner)
-  | other (txt : String)                                         -- errors.New(txt) and the like
-  | netErr (txt : String) (timeout : Bool)                       -- some other net.Error implementation
+  | wrapped (pre : List Tok) (inner : Err)                       -- fmt.Errorf(pre + "%w", inner)
+  | other (toks : List Tok)                                      -- an opaque error: errors.New, transport sentinels,
+                                                                 -- fmt.Errorf("…%v", e) (e is flattened into the text)
+  | netErr (toks : List Tok) (timeout : Bool)                    -- some other net.Error implementation (*net.AddrError, …)
 deriving Repr, DecidableEq
 
 /-- `Error()`.  `*net.OpError` prints `op net src->dst: inner` with the endpoints it was given. -/
@@ -86,9 +90,9 @@ def Err.text : Err → List Tok
   | .netClosed => [.str "use of closed network connection"]
   | .osClosed => [.str "file already closed"]
   | .deadline => [.str "i/o timeout"]
-  | .wrapped txt inner => .str (txt ++ ": ") :: inner.text
-  | .other txt => [.str txt]
-  | .netErr txt _ => [.str txt]
+  | .wrapped pre inner => pre ++ inner.text
+  | .other toks => toks
+  | .netErr toks _ => toks
 
 /-- the comparison targets of `generalizeErr` -/
 inductive Target
@@ -163,12 +167,24 @@ def Err.strip : Err → Err
   | e => e
 
 /-- the sentinels the two functions substitute -/
-def errConnClosed : Err := .other "closed"
-def errConnReset : Err := .other "rst"
-def errConnRefused : Err := .other "refused"
-def errConnAborted : Err := .other "aborted"
-def errUnreachable : Err := .other "unreachable"
-def errConnTimeout : Err := .other "timeout"
+def errConnClosed : Err := .other [.str "closed"]
+def errConnReset : Err := .other [.str "rst"]
+def errConnRefused : Err := .other [.str "refused"]
+def errConnAborted : Err := .other [.str "aborted"]
+def errUnreachable : Err := .other [.str "unreachable"]
+def errConnTimeout : Err := .other [.str "timeout"]
+
+/-- every opaque part of the error (text of `errors.New`-like values and of foreign `net.Error`s, prefixes
+added by wrappers) is free of addresses: true of what package net, os, syscall and the wrapping
+transports return from Read / Write / Close / SetDeadline / File — they name endpoints only through
+`*net.OpError` — and exactly what the sanitiser relies on -/
+def Err.opaqueClean : Err → Bool
+  | .syscallErr _ inner => inner.opaqueClean
+  | .opError _ _ _ _ inner => inner.opaqueClean
+  | .wrapped pre inner => noAddr pre && inner.opaqueClean
+  | .other toks => noAddr toks
+  | .netErr toks _ => noAddr toks
+  | _ => true
 
 /-- `generalizeErr(err)` for a non-nil `err`; `none` = nil.  `app = true`: cmd/application/conns.go (the
 closed class becomes the sentinel "closed"); `app = false`: pkg/station/lib/proxies.go (it becomes nil). -/
@@ -196,10 +212,17 @@ inductive Level
   | fatal        -- Fatal*/Panic*
 deriving Repr, DecidableEq
 
-/-- `level = ErrorLevel` by default; a call is emitted iff its level is at least the logger's -/
-def Level.emittedAtDefault : Level → Bool
-  | .trace | .debug | .warn => false
-  | .error | .info | .print | .fatal => true
+/-- Which levels write at the level a logger starts with is *observed on the code under check* (a table
+`CJ.Gen.levelEmitted`, regenerated on every run); a level the table does not list counts as emitted. -/
+def emittedBy (tbl : List (Level × Bool)) (l : Level) : Bool :=
+  match tbl.lookup l with
+  | some b => b
+  | none => true
+
+/-- the table at the time of review (`ErrorLevel` is the default, `Info` ranks above `Error`); theorems
+about call sites use the regenerated table, this one documents what the harness assumes -/
+def reviewedLevels : List (Level × Bool) :=
+  [(.trace, false), (.debug, false), (.warn, false), (.error, true), (.info, true), (.print, true), (.fatal, true)]
 
 /-- one argument of a logger call, as the extractor classifies it -/
 inductive Arg
@@ -234,8 +257,8 @@ def safeOrigins : List String := [
   -- `SetDeadline` failures are `OpError{Op: "set", Source: nil, Addr: laddr}` (local address only,
   -- `deadline_error_no_client`) or a bare errno (obfs4: ENOTSUP)
   "clientConn.SetDeadline", "wrapped.SetDeadline",
-  -- GeoIP lookups: hypothesis shared with C03 (the error text does not repeat the looked-up address; true
-  -- for IPv6-format databases, which every GeoLite2 file is)
+  -- GeoIP lookups: pkg/station/geoip takes the looked-up address out of the reader's error text (maxminddb
+  -- repeats it for an IPv6 lookup in an IPv4-only database); exercised by the harness with such a database
   "regManager.GeoIP.CC", "regManager.GeoIP.ASN", "regManager.GeoIPDatabase().CC", "regManager.GeoIPDatabase().ASN",
   -- proxies.go: the PROXY header is written to the covert connection (station and covert endpoints); the
   -- client address is parsed from `RemoteAddr().String()`, which is host:port for TCP and UDP peers
@@ -244,28 +267,46 @@ def safeOrigins : List String := [
   "liveness.New", "phantoms.NewPhantomIPSelector", "geoip.New",
   "regManager.registeredDecoys.register", "regManager.registeredDecoys.Register",
   "rm.parseRegMessage", "rm.ValidateRegistration", "rm.TrackRegistration", "proto.Marshal", "proto.Unmarshal",
-  "executeHTTPRequest", "rm.NewRegistrationC2SWrapper", "rm.PhantomIsLive"
+  "executeHTTPRequest", "rm.NewRegistrationC2SWrapper", "rm.PhantomIsLive",
+  -- zmq_proxy.go: the ZMQ sockets connect the station to its detector and to the registrars (configured
+  -- endpoints); libzmq errors are errno texts
+  "zmq.NewSocket", "sub.Connect", "sub.SetSubscribe", "sub.RecvBytes", "pubSock.Bind", "pubSock.SendBytes",
+  "sock.SetHeartbeatIvl", "sock.SetHeartbeatTimeout", "sock.ClientAuthCurve", "sock.SetSubscribe", "sock.Connect"
 ]
 
-/-- Reviewed: every non-error expression that reaches a logger in the covered files, with the role of the
-address it renders (`none`: it renders no address).  Unlisted expressions fail the call-site theorem. -/
+/-- Reviewed: every non-error expression that reaches a logger (or a logger prefix) in the covered
+directories, with the role of the address it renders (`none`: it renders no address).  A plain
+identifier is keyed together with what was assigned to it (`name=<right-hand side>`), a parameter with its
+function.  Unlisted expressions fail the call-site theorem. -/
 def exprRoles : List (String × Option Role) := [
   -- numbers, durations, flags, names, identifiers derived from the shared secret
-  ("count", none), ("timeout", none), ("received.Len() + n", none), ("time.Until(deadline)", none),
-  ("t.Name()", none), ("d", none), ("reg.IDString()", none), ("newRegs[0].IDString()", none), ("tag", none),
-  ("isUpload", none), ("nr", none), ("sig.String()", none), ("reg.RegistrationSource", none),
-  ("parsed.GetRegistrationSource()", none), ("r.TotalRegistrations()", none), ("r.totalTimeouts()", none),
-  -- statistics keyed by ASN / country code, never by address
-  ("asn", none), ("counts.cc", none), ("c.connectingCounts.string()", none),
-  ("counts.connectingCounts.string()", none),
-  -- summaries shown client-free below (`tunnel_summary_no_client`, `digest_omits_registrant`)
-  ("tunStatsStr", none), ("statsStr", none), ("reg.String()", none),
+  ("count=regManager.CountRegistrations(originalDstIP)", none), ("timeout=time.Duration(ms) * time.Millisecond", none),
+  ("n=clientConn.Read(buf[:])", none), ("nr=src.Read(buf)", none), ("time.Until(deadline)", none),
+  ("d=time.Until(deadline)", none), ("t.Name()", none), ("t.LogPrefix()", none), ("reg.IDString()", none),
+  ("newRegs[0].IDString()", none), ("tag=param(halfPipe)", none), ("isUpload=strings.HasPrefix(tag, \"Up\")", none),
+  ("sig.String()", none), ("reg.RegistrationSource", none), ("parsed.GetRegistrationSource()", none),
+  ("r.TotalRegistrations()", none), ("r.totalTimeouts()", none), ("s.registeredDecoys.TotalRegistrations()", none),
+  ("zi.HeartbeatInterval", none), ("zi.HeartbeatTimeout", none),
+  -- statistics keyed by ASN / country code / generation / transport / library version, never by address
+  ("asn=range(val)", none), ("counts.cc", none), ("c.connectingCounts.string()", none),
+  ("counts.connectingCounts.string()", none), ("stats.newRegistrations", none), ("gen=range(s.generations)", none),
+  ("tt=range(s.ttStats)", none), ("lv=range(s.lvStats)", none),
+  -- summaries shown client-free below (`tunnel_summary_no_client`, `digest_omits_registrant`,
+  -- `summary_fields_reviewed` over the regenerated field table)
+  ("tunStatsStr=json.Marshal(ts)", none), ("statsStr=json.Marshal(stats)", none), ("reg.String()", none),
+  -- client-side library code (prefix transport's debug print): prefix id and session parameters
+  ("s=param(debug)", none), ("t.Prefix", none), ("t.parameters", none), ("t.sessionParams", none),
   -- addresses that are not a client's
-  ("listenAddr", some .station), ("ln.Addr()", some .station), ("originalDstIP", some .phantom),
-  ("reg.PhantomIp", some .phantom), ("reg.Covert", some .covert), ("decoyAddress", some .decoy),
+  ("listenAddr=&net.TCPAddr{IP: nil, Port: 41245, Zone: \"\"}", some .station), ("ln.Addr()", some .station),
+  ("http.ListenAndServe(\"localhost:6060\", nil)", some .station),
+  ("zi.connectAddr", some .station), ("connectSocket.Address", some .station), ("config.Address", some .station),
+  ("originalDstIP=param(handleNewTCPConn)", some .phantom), ("originalDst=originalDstIP.String()", some .phantom),
+  ("reg.PhantomIp", some .phantom), ("reg.Covert", some .covert),
+  ("decoyAddress=net.IP(parsed.GetDecoyAddress())", some .decoy),
   -- client addresses
-  ("sourceAddr", some .client), ("reg.GetRegistrationAddress()", some .client),
-  ("clientConn.RemoteAddr()", some .client), ("clientConn.RemoteAddr().String()", some .client)
+  ("sourceAddr=net.IP(parsed.GetRegistrationAddress())", some .client), ("reg.GetRegistrationAddress()", some .client),
+  ("clientConn.RemoteAddr()", some .client), ("clientConn.RemoteAddr().String()", some .client),
+  ("originalSrc=clientConn.RemoteAddr().String()", some .client)
 ]
 
 def lookupRole (s : String) : List (String × Option Role) → Option (Option Role)
@@ -285,8 +326,8 @@ def Arg.ok : Arg → Bool
 the raw read error; it is unreachable for connections that honour `io.Reader` (`nr ≤ len(buf)`). -/
 def exemptFormats : List String := ["unexpected read len error - up:%t (%dB): %s"]
 
-def Site.ok (s : Site) : Bool :=
-  !s.level.emittedAtDefault || exemptFormats.contains s.format || s.args.all Arg.ok
+def Site.ok (tbl : List (Level × Bool)) (s : Site) : Bool :=
+  !emittedBy tbl s.level || exemptFormats.contains s.format || s.args.all Arg.ok
 
 /-! ### rendering of a call site in an environment -/
 
@@ -308,10 +349,46 @@ def renderArg (env : Env) : Arg → List Tok
 def renderSite (env : Env) (s : Site) : List Tok := s.args.flatMap (renderArg env)
 
 /-- The environment respects the reviewed tables: listed origins return errors without client
-addresses, listed expressions render no client address unless they are listed as one. -/
+addresses, listed expressions render no client address unless they are listed as one; the error handed
+to `generalizeErr` names endpoints only through operation errors. -/
 structure Env.Ok (env : Env) : Prop where
+  err_clean : env.err.opaqueClean = true
   raw_ok : ∀ o, o ∈ safeOrigins → noClient (env.raw o).text = true
   expr_ok : ∀ s r, lookupRole s exprRoles = some r → r ≠ some Role.client → noClient (env.exprToks s) = true
+
+/-! ### reviewed facts about the switch and the summaries (checked against regenerated tables) -/
+
+/-- the only values `logClientIP` may be given: the constant `false` and the parsed environment variable -/
+def reviewedLogClientIPAssigns : List String :=
+  ["false", "strconv.ParseBool(os.Getenv(\"LOG_CLIENT_IP\"))"]
+
+/-- assignments the extractor leaves out because they stand under `if logClientIP` -/
+def reviewedGuarded : List String := ["handleNewTCPConn: originalSrc"]
+
+/-- Go types / JSON kinds of summary fields that cannot hold an address -/
+def plainTypes : List String :=
+  ["int64", "int32", "uint", "uint32", "bool", "number", "object", "null",
+   "*proto.RegistrationFlags", "proto.TransportType", "*proto.RegistrationSource", "time.Time"]
+
+/-- Reviewed: the string-valued fields of the JSON summaries and what fills them.  A string field that is
+not listed (say a `ClientAddr` added to `tunnelStats`) fails `summary_fields_reviewed`. -/
+def reviewedStringFields : List (String × String) := [
+  -- tunnelStats: error texts that went through generalizeErr (relay injection tests), the phantom, GeoIP
+  -- country code, transport / registrar names, option strings of the transport
+  ("tunnelStats", "CovertDialErr"), ("tunnelStats", "CovertConnErr"), ("tunnelStats", "ClientConnErr"),
+  ("tunnelStats", "PhantomAddr"), ("tunnelStats", "CC"), ("tunnelStats", "Transport"), ("tunnelStats", "Registrar"),
+  ("tunnelStats", "TransportOpts"), ("tunnelStats", "RegOpts"), ("tunnelStats", "Tags"),
+  ("regExpireLogMsg", "PhantomAddr"), ("regExpireLogMsg", "CC"), ("regExpireLogMsg", "Transport"),
+  ("regExpireLogMsg", "Registrar"), ("regExpireLogMsg", "TransportOpts"), ("regExpireLogMsg", "RegOpts"),
+  ("regExpireLogMsg", "Tags"),
+  -- the registration digest: phantom host:port, hex of the shared secret, covert, mask site, time
+  ("DecoyRegistration.String", "Phantom"), ("DecoyRegistration.String", "SharedSecret"),
+  ("DecoyRegistration.String", "Covert"), ("DecoyRegistration.String", "Mask"), ("DecoyRegistration.String", "RegTime")
+]
+
+def fieldOk (f : String × String × String) : Bool :=
+  plainTypes.contains f.2.2 ||
+    ((f.2.2 == "string" || f.2.2 == "[]string") && reviewedStringFields.contains (f.1, f.2.1))
 
 /-! ### summaries -/
 
